@@ -598,6 +598,9 @@ func (x *Exec) resetPath() {
 	x.nextMap = 0
 	x.fileData = map[string]fileStub{}
 	x.hb = nil
+	x.syncs = nil
+	x.wtrack = nil
+	x.wtrackM = nil
 	x.sched = nil
 	x.tb.MaybeReset()
 }
